@@ -92,8 +92,8 @@ ENUMS = {'Option': ['None', 'Some'], 'Result': ['Ok', 'Err'], 'ControlFlow': ['C
 STRUCTS = {}
 def scan_types(paths):
     # serde mirror structs of the JSON layer share simple names with the model types: keep them apart
-    for p in sorted(paths, key=lambda x: 'json_serialisation' not in x):
-        pre = 'Json' if 'json_serialisation' in p else ''
+    for p in sorted(paths, key=lambda x: 'model/src/json_serialisation' not in x):
+        pre = 'Json' if 'model/src/json_serialisation' in p else ''
         src = re.sub(r'//[^\n]*', '', open(p).read())
         for m in re.finditer(r'\benum (\w+)[^{;]*\{(.*?)\n\}', src, re.S):
             body = re.sub(r'#\[.*?\]', '', m.group(2)); vs = []
@@ -758,7 +758,7 @@ class Exec:
         m = re.match(r'^([\w:<>, &\'\[\]\(\)]+?) \{ (.*) \}$', s)
         if m:
             nm = last_seg(m.group(1))
-            if 'json_serialisation::' in m.group(1): nm = 'Json' + nm
+            if 'json_serialisation::' in m.group(1) and ('Json' + nm) in STRUCTS and nm in ('VehicleType', 'Location', 'Depot', 'Route', 'Departures', 'Parameters'): nm = 'Json' + nm
             fields = STRUCTS.get(nm)
             parts = split_top(m.group(2))
             # enum struct-like variant?  Enum::Variant { .. }
